@@ -26,7 +26,7 @@ ASSUMPTIONS = ["versions are Python ints; integral-float / bool versions are gra
 FLAWS = ["none", "none", "none", "version", "version", "trusted_sigs", "own_sigs", "type_T", "type_N", "noroot_T", "noroot_N",
          "malformed_T", "malformed_N", "junk_entry", "self_appointed", "threshold_from_new", "spelling_dups", "dup_keys_T", "dup_keys_N"]
 VERSION_PLANS = ["v", "v-1", "v+2", "1", "huge"]
-ENTRY_STATES = ["valid", "valid", "valid", "valid", "nonce", "raw_shape", "bitflip", "other_payload", "misfiled"]
+ENTRY_STATES = ["valid", "valid", "valid", "valid", "nonce", "raw_shape", "bitflip", "other_payload", "misfiled", "hex_whitespace"]
 
 MALFORM = [("version", "2"), ("version", 0), ("version", None), ("version", 1.5), ("expiration", "2031-13-01T00:00:00Z"),
            ("expiration", 5), ("delegations", []), ("metadata_spec_version", 6), ("type", "Root"), ("timestamp", "yesterday"),
@@ -129,6 +129,11 @@ def root_pairs(draw):
             hx = e["signature"]
             j = draw(st.integers(0, 127))
             e["signature"] = hx[:j] + "%x" % (int(hx[j], 16) ^ 1) + hx[j + 1:]
+        elif state == "hex_whitespace":
+            # a valid signature whose hex fields carry trailing whitespace: not a well-formed entry, so the offer is not well-formed metadata
+            e = ref_openpgp.entry(s, B, headers=hdr)
+            f = draw(st.sampled_from(["other_headers", "other_headers", "signature"]))
+            e[f] = e[f] + draw(st.sampled_from(["\n", " ", "\r\n", "\t"]))
         elif state == "other_payload":
             e = ref_openpgp.entry(s, canon(ts), headers=hdr)
         else:
